@@ -23,7 +23,27 @@ type pubTarget struct {
 	dsp   *dastard.DataStreamProcessor
 	fmt   string
 	n     int
+	ns    int // OFF: samples per projector (the header carries 2 x n x ns float64)
 	ctime time.Time
+}
+
+// plausibleHeader is an implementation-independent sanity check of a reference header (which is itself
+// written by the implementation): the format's opening bytes and a lower bound on the length.
+func plausibleHeader(format string, hdr []byte, minLen int) bool {
+	magic := "{"
+	if format == "pub22" || format == "ljh22" {
+		magic = "#LJH Memorial File Format"
+	}
+	return len(hdr) >= minLen && len(hdr) >= len(magic) && string(hdr[:len(magic)]) == magic
+}
+
+// headerStandIn is what the checker is given when the reference header is not plausible: the opening
+// bytes every header of the format has (the stream must at least begin with those).
+func headerStandIn(format string) []byte {
+	if format == "pub22" || format == "ljh22" {
+		return []byte("#LJH Memorial File Format")
+	}
+	return []byte("{")
 }
 
 const pubNpre = 10
@@ -36,11 +56,14 @@ func (t *pubTarget) configure(path string) {
 	case "pub3":
 		dp.SetLJH3(3, 1e-5, 4, 2, 64, 5, path)
 	default:
-		nb, ns := t.n, 4
+		nb, ns := t.n, t.ns
+		if ns <= 0 {
+			ns = 4
+		}
 		pd := make([]float64, nb*ns)
 		bd := make([]float64, nb*ns)
 		for i := range pd {
-			if nb > 100 {
+			if nb*ns > 400 {
 				break // many coefficients: all-zero matrices keep the rendered header short
 			}
 			pd[i] = float64(i % 4)
@@ -108,8 +131,8 @@ func pubAttempt(c Case, dir string, limit time.Duration) (hdr []byte, recs [][]b
 	defer os.Remove(path)
 	defer os.Remove(ref)
 	ctime := time.Unix(1700000123, 456000000).UTC()
-	tgt := &pubTarget{dsp: bench.VerifDsp(0), fmt: c.Fmt, n: c.N, ctime: ctime}
-	rtg := &pubTarget{dsp: bench.VerifDsp(1), fmt: c.Fmt, n: c.N, ctime: ctime}
+	tgt := &pubTarget{dsp: bench.VerifDsp(0), fmt: c.Fmt, n: c.N, ns: c.Hdr, ctime: ctime}
+	rtg := &pubTarget{dsp: bench.VerifDsp(1), fmt: c.Fmt, n: c.N, ns: c.Hdr, ctime: ctime}
 	// reference header: the same first record published through a second publisher to a plain file
 	rtg.configure(ref)
 	r0, e0 := rtg.record(0)
@@ -125,6 +148,17 @@ func pubAttempt(c Case, dir string, limit time.Duration) (hdr []byte, recs [][]b
 		panic(fmt.Sprint("c07: reference file: ", err, len(whole)))
 	}
 	hdr = whole[:len(whole)-len(e0)]
+	minLen := 1
+	if c.Fmt == "puboff" {
+		ns := c.Hdr
+		if ns <= 0 {
+			ns = 4
+		}
+		minLen = 16 * c.N * ns // projectors and basis
+	}
+	if !plausibleHeader(c.Fmt, hdr, minLen) {
+		hdr = headerStandIn(c.Fmt)
+	}
 
 	rd := newBudgetReader()
 	go rd.run(path)
@@ -165,6 +199,15 @@ func pubAttempt(c Case, dir string, limit time.Duration) (hdr []byte, recs [][]b
 				rd.set(-1)
 				dp.SetPause(true)
 				dp.SetPause(false)
+			case "Y":
+				time.Sleep(time.Duration(op.N) * time.Microsecond) // lets the writer goroutine catch up; outcomes are judged, not predicted
+			case "K":
+				// stop writing (Remove...) while the reader stays stalled for op.N ms more
+				cdone := make(chan struct{})
+				go func() { dp.RemoveLJH22(); dp.RemoveLJH3(); dp.RemoveOFF(); close(cdone) }()
+				time.Sleep(time.Duration(op.N) * time.Millisecond)
+				rd.set(-1)
+				<-cdone
 			}
 		}
 		rd.set(-1)
@@ -194,7 +237,7 @@ func runPub(c Case) lib.Result {
 		K, F string
 		N    int
 		O    []GOp
-	}{"pub", c.Fmt, c.N, c.Ops})}
+	}{"pub", c.Fmt, c.N + 100000*c.Hdr, c.Ops})}
 	dir, _ := os.Getwd()
 	tags := map[string]bool{"publish": true, "publish-" + c.Fmt: true}
 	hdr, recs, stream, hung := pubAttempt(c, dir, 30*time.Second)
